@@ -657,6 +657,26 @@ func (x *extractor) cond(e ast.Expr) *Cond {
 	return &Cond{Kind: "cmp", X: x.expr(e), Op: "?", Expr: e}
 }
 
+// canonIfOrientation: `if c {A} else {B}` and `if !c {B} else {A}` are one construct. With a plain else block the
+// condition is made positive (`x == nil` is held as !(x != nil); `a <= b` is !(b < a)) and the branches swapped, so that
+// rules see the same shape whichever way the source is written.
+func canonIfOrientation(n *IfN, s *ast.IfStmt) {
+	if _, plain := s.Else.(*ast.BlockStmt); !plain || n.Cond == nil {
+		return
+	}
+	c := *n.Cond
+	switch {
+	case c.Neg:
+		c.Neg = false
+	case c.Kind == "cmp" && c.Op == "<=":
+		c.X, c.Y, c.Op = c.Y, c.X, "<"
+	default:
+		return
+	}
+	n.Cond = &c
+	n.Then, n.Else = n.Else, n.Then
+}
+
 func (x *extractor) isNil(e ast.Expr) bool {
 	id, ok := ast.Unparen(e).(*ast.Ident)
 	if !ok {
@@ -799,6 +819,7 @@ func (x *extractor) stmt(s ast.Stmt) []Node {
 			if s.Else != nil {
 				n.Else = x.stmt(s.Else)
 			}
+			canonIfOrientation(n, s)
 			return append(out, n)
 		}
 		c := x.cond(s.Cond)
@@ -806,6 +827,7 @@ func (x *extractor) stmt(s ast.Stmt) []Node {
 		if s.Else != nil {
 			n.Else = x.stmt(s.Else)
 		}
+		canonIfOrientation(n, s)
 		return []Node{n}
 	case *ast.SwitchStmt:
 		var out []Node
